@@ -146,6 +146,7 @@ class Models:
         models_xr.register(self)
         models_pp.register(self)
         models_more.register(self)
+        models_more.register2(self)
 
     # -------------------------------------------------------------------------------------------
     # imports
